@@ -286,6 +286,6 @@ var files = ev.NewCheck("C09", "files",
 	"rapid: valid files from the byte-level grammar (C02 domain, payloads <= 200) and from the library's writer (C01 domain), whole or truncated at a drawn offset (for half of the whole files additionally EVERY truncation, each read from memory vs. single read with EOF, byte-wise, last byte together with EOF, two halves); payloads <= 200 bytes, in one case of ten up to 70000 bytes (crossing the 4 KiB / 64 KiB buffer thresholds; for files > 1500 bytes the split points are all offsets around field boundaries and size thresholds plus a stride); per file: one-byte reads, a single read, EVERY single split point, 1..5 random partitions, each with and without the final bytes delivered together with io.EOF; readers never return 0 bytes without error; oracle = differential against smf.ReadFrom(bytes.Reader): both fail or both succeed, same failure kind (nil / ErrMissing / other), deep-equal value (format, division, events, tempo map); the per-fragmentation counts are in part 'fragmentations'",
 	genCase, run)
 
-func TestPropFiles(t *testing.T) { files.Rapid(t, 40, 3000) }
+func TestPropFiles(t *testing.T) { files.Rapid(t, 100, 3000) }
 
 func TestReplay(t *testing.T) { ev.ReplayAll(t) }
